@@ -61,16 +61,17 @@ def gen_barcode_case(rng):
     return dict(paired=False, opts=opts, io=io, recs1=recs, recs2=None, fasta_out=False, interleaved_in=False)
 
 
-def gen_large_case(rng):
+def gen_large_case(rng, huge=None):
     """A few MB of input in blocks of long and of very short reads, so that the amount a chunk contributes to each
     output file varies between nothing and several hundred KB (buffers of the workers are reused across chunks)."""
     ad = G.rnd(rng, 20)
     paired = rng.random() < 0.3
     recs1, recs2 = [], []
     i = 0
-    for b in range(rng.randint(5, 8)):
+    huge = (rng.random() < 0.3) if huge is None else huge      # several MB: single chunks then contribute more than a MiB to an output file
+    for b in range(rng.randint(5, 8) if not huge else rng.randint(9, 12)):
         long_block = b % 2 == 0
-        for _ in range(rng.randint(900, 1600) if long_block else rng.randint(1500, 3000)):
+        for _ in range((rng.randint(900, 1600) if long_block else rng.randint(1500, 3000)) * (2 if huge else 1)):
             def one():
                 if long_block:
                     s = G.rnd(rng, rng.randint(60, 100))
@@ -179,6 +180,9 @@ def gen_case(rng, large=False):
             opts = [o for i, o in enumerate(opts) if not (o.endswith("-paired-output") or (i > 0 and opts[i - 1].endswith("-paired-output")))]
         else:
             io = ["-o", "out1" + ext] + (["-p", "out2" + ext] if paired else [])
+        if not paired and rng.random() < 0.12:
+            # reads on standard output (the report then goes to standard error), with and without --fasta
+            io = ["--fasta"] if rng.random() < 0.5 else []
     if not paired or rng.random() < 0.5:
         if rng.random() < 0.5:
             opts += ["--info-file", "info.tsv"]
@@ -202,12 +206,12 @@ def gen_case(rng, large=False):
                 fasta_in=fasta_in)
 
 
-def snapshot_dir(d):
+def snapshot_dir(d, with_stdout=False):
     """{relative file name: decompressed bytes} of all output files in directory d."""
     out = {}
     for f in sorted(os.listdir(d)):
         p = os.path.join(d, f)
-        if not os.path.isfile(p) or f.endswith((".stdout", ".stderr")) or f == "rep.json":
+        if not os.path.isfile(p) or f.endswith(".stderr") or f == "rep.json" or (f.endswith(".stdout") and not with_stdout):
             continue
         try:
             out[f] = fastx.decompress_file(p)
@@ -269,7 +273,10 @@ def one_case(ctx, k):
             ctx.count("reference_run_failed")
             ctx.extra.setdefault("failed_example", (base, ref.err[-300:]))
             return
-        ref_files = snapshot_dir(d1)
+        to_stdout = "-o" not in io
+        if to_stdout:
+            ctx.count("reads_on_standard_output_cases")
+        ref_files = snapshot_dir(d1, to_stdout)
         ref_json = norm_json(os.path.join(d1, "rep.json"))
         total_bytes = sum(len(r[0]) + len(r[1]) + len(r[2]) + 6 for r in c["recs1"])
         n_variants = ctx.scale(3, 6)
@@ -308,7 +315,7 @@ def one_case(ctx, k):
             if run.rc != 0:
                 viol("multicore-run-failed", f"exit {run.rc} although the one-core run succeeded: {run.err.strip().splitlines()[-1][:200] if run.err.strip() else ''}")
                 continue
-            files = snapshot_dir(dv)
+            files = snapshot_dir(dv, to_stdout)
             files = {f: b for f, b in files.items() if not f.endswith(".ev") and f != "run.ev"}
             if set(files) != set(ref_files):
                 viol("file-set-differs", f"files {sorted(set(files) ^ set(ref_files))} exist in only one of the runs")
